@@ -44,6 +44,9 @@ inductive GoType
   | array (n : Nat) (e : GoType)
   | struct (fs : Fields)
   | named (t : GoType)
+  /-- `*types.Alias` (`type F = func()`): transparent everywhere except in `goProgram.extraSize`, which has no case
+      for it and answers 0 -/
+  | alias (t : GoType)
 inductive Fields
   | nil
   | cons (t : GoType) (fs : Fields)
@@ -163,6 +166,7 @@ def stdSA (tg : Target) : GoType → Nat × Nat
   | .array n e => (stdArraySize tg n (stdSA tg e).1 (stdSA tg e).2, (stdSA tg e).2)
   | .struct fs => (stdStructSize tg (stdSAs tg fs), maxAlignOf (stdSAs tg fs))
   | .named t => stdSA tg t
+  | .alias t => stdSA tg t
 def stdSAs (tg : Target) : Fields → List (Nat × Nat)
   | .nil => []
   | .cons t fs => stdSA tg t :: stdSAs tg fs
@@ -184,6 +188,7 @@ end
 /-- `T.Underlying()` -/
 def under : GoType → GoType
   | .named t => under t
+  | .alias t => under t
   | t => t
 
 /-- `goProgram.Sizeof` -/
@@ -232,6 +237,7 @@ def toRaw : GoType → GoType
   | .array n e => .array n (toRaw e)
   | .struct fs => .struct (toRaws fs)
   | .named t => .named (toRaw t)
+  | .alias t => toRaw t                   -- `cvtType(types.Unalias(t))`
 def toRaws : Fields → Fields
   | .nil => .nil
   | .cons t fs => .cons (toRaw t) (toRaws fs)
@@ -278,6 +284,7 @@ def llSA (tg : Target) : GoType → Nat × Nat
   | .array n e => (n * (llSA tg e).1, (llSA tg e).2)
   | .struct fs => llStruct (llSAs tg fs)
   | .named t => llSA tg t
+  | .alias t => llSA tg t
 def llSAs (tg : Target) : Fields → List (Nat × Nat)
   | .nil => []
   | .cons t fs => llSA tg t :: llSAs tg fs
@@ -332,6 +339,7 @@ def abiSizeG (tg : Target) (fw : Nat) : GoType → Nat
   | .array n e => n * abiSizeG tg fw e
   | .struct fs => goSizeof tg (.struct fs)
   | .named t => abiSizeG tg fw t
+  | .alias t => abiSizeG tg fw t
 
 /-- the code as it is -/
 def abiSize (tg : Target) (t : GoType) : Nat := abiSizeG tg 1 t
@@ -350,6 +358,7 @@ def abiAlignG (tg : Target) (ba : Basic → Nat) : GoType → Nat
   | .array _ e => abiAlignG tg ba e
   | .struct fs => abiAlignsG tg ba fs
   | .named t => abiAlignG tg ba t
+  | .alias t => abiAlignG tg ba t
 def abiAlignsG (tg : Target) (ba : Basic → Nat) : Fields → Nat
   | .nil => 1
   | .cons t fs => if abiAlignG tg ba t > abiAlignsG tg ba fs then abiAlignG tg ba t else abiAlignsG tg ba fs
@@ -420,11 +429,61 @@ def padFree (tg : Target) : GoType → Bool
   | .array _ e => padFree tg e
   | .struct fs => padFrees tg fs && tailOK (stdSAs tg fs)
   | .named t => padFree tg t
+  | .alias t => padFree tg t && extra tg t == 0      -- an alias must not hide a function value from `extraSize`
   | _ => true
 def padFrees (tg : Target) : Fields → Bool
   | .nil => true
   | .cons t fs => padFree tg t && padFrees tg fs
 end
+
+/-! ## `unsafe.Offsetof` evaluated per instance of a generic function (`cl/instr.go` `offsetOfFieldChain`)
+
+Inside a generic function go/types cannot fold `unsafe.Offsetof(x.a.b)`; llgo evaluates it when the instance is
+compiled: it starts from the selected field's `FieldAddr`, adds the LLVM offsets of the parents that go/ssa inserted
+for promotion through embedded fields, and stops at the first parent whose selector is written in the source. -/
+
+/-- a parent `FieldAddr`: LLVM offset of that field in its struct, and whether its selector is written in the source -/
+structure Step where
+  off : Nat
+  explicit : Bool
+  deriving DecidableEq, Repr
+
+/-- `offsetOfFieldChain`: `sel` = offset of the selected field, `ps` = its parents, innermost first -/
+def chainOffset (sel : Nat) : List Step → Nat
+  | [] => sel
+  | p :: ps => if p.explicit then sel else chainOffset (sel + p.off) ps
+
+/-- Go spec: `Offsetof(x.f)` is the offset of `f` relative to `x`, through the embedded fields `f` is promoted from -/
+def specOffset (sel : Nat) (ps : List Step) : Nat :=
+  sel + ((ps.takeWhile (fun p => !p.explicit)).map (·.off)).foldl (· + ·) 0
+
+/-- i-th field type and its LLVM offset in the struct underlying `t` (as `offsetOfFieldAddr`: `prog.OffsetOf(prog.Type(t, InGo), i)`) -/
+def fieldsNth : Fields → Nat → Option GoType
+  | .nil, _ => none
+  | .cons t _, 0 => some t
+  | .cons _ fs, n + 1 => fieldsNth fs n
+
+def fieldAt (tg : Target) (t : GoType) (i : Nat) : Option (GoType × Nat) :=
+  match under t with
+  | .struct fs =>
+    match fieldsNth fs i, (llvmLayout tg t).offsets[i]? with
+    | some ft, some o => some (ft, o)
+    | _, _ => none
+  | _ => none
+
+/-- walk a selector path (field index, written-in-source) from the root struct; returns the steps outermost first -/
+def walkPath (tg : Target) : GoType → List (Nat × Bool) → Option (List Step)
+  | _, [] => some []
+  | t, (i, e) :: r =>
+    match fieldAt tg t i with
+    | some (ft, o) => (walkPath tg ft r).map (fun l => ⟨o, e⟩ :: l)
+    | none => none
+
+/-- the per-instance value of `unsafe.Offsetof(root.path)` -/
+def genericOffsetof (tg : Target) (root : GoType) (path : List (Nat × Bool)) : Option Nat :=
+  match (walkPath tg root path).map List.reverse with
+  | some (s :: ps) => some (chainOffset s.off ps)
+  | _ => none
 
 /-! ## decidable target conditions -/
 
@@ -454,6 +513,7 @@ def isC : GoType → Bool
   | .array n e => n > 0 && isC e
   | .struct fs => (match fs with | .nil => false | _ => true) && isCs fs
   | .named t => isC t
+  | .alias t => isC t
   | _ => false
 def isCs : Fields → Bool
   | .nil => true
@@ -495,6 +555,7 @@ def cSA (tg : Target) (cmax : Nat) : GoType → Nat × Nat
       let a := maxAlignOf l
       (e + (a - e % a) % a, a)
   | .named t => cSA tg cmax t
+  | .alias t => cSA tg cmax t
   | _ => (0, 1)
 def cSAs (tg : Target) (cmax : Nat) : Fields → List (Nat × Nat)
   | .nil => []
